@@ -419,6 +419,7 @@ MANIFEST = dict(
          'decided by the solver, not sampled), plus a sequentialised two-writer schedule search in which the injection '
          'point of the second writer is a solver variable over every lock/file/API yield point of the first writer\'s 2PC.',
     note='object states are concrete representatives; 2 writers, 1 atomic injection (K=1); schedules below lock/file-op '
-         'granularity and more than two concurrent committers are outside the claim; Connection-level readCurrent by selector (read_current).',
+         'granularity and more than two concurrent committers are outside the claim; Connection-level readCurrent by selector (read_current); '
+         'writers of different objects: ids in commit order; connection_failed_commit = C12 program harness (length 4).',
     design_ref='DESIGN.md section 4, C03',
 )
